@@ -8,6 +8,7 @@ explored space, relaxed by >= 2x for ratios / packet counts and >= 3 dB for leve
 import sys, math, re
 
 NCLASS = 8
+NSIG = 4    # speech, tone, steps47, steps13
 TAGS = ["silk-nb-20ms", "silk-nb-60ms", "silk-wb-20ms", "silk-wb-60ms", "hybrid-fb-20ms", "celt-fb-2.5ms", "celt-fb-10ms", "celt-fb-20ms"]
 CELT = {5, 6, 7}
 def tailroom(k):            # must mirror tailroom() in c09_loss.c
@@ -38,26 +39,26 @@ def table2(name, key, fn, relax, vac, cmt, ctype="double", fmt="%.2f"):
     ent = []; meas = []
     for k in range(NCLASS):
         row = []; mrow = []
-        for s in range(2):
+        for s in range(NSIG):
             m = ext(k, s, key, fn); mrow.append("n/a" if m is None else fmt % m)
             row.append(vac if m is None else relax(m))
         ent.append(row); meas.append(mrow)
-    out.append("/* %s\n   measured [class][speech,tone]: %s */" % (cmt, " ".join("{%s}" % ",".join(m) for m in meas)))
-    out.append("static const %s %s[K_NCLASS][2]={%s};" % (ctype, name, ",".join("{%s}" % ",".join((fmt % v) if ctype == "double" else str(v) for v in r) for r in ent)))
+    out.append("/* %s\n   measured [class][speech,tone,steps47,steps13]: %s */" % (cmt, " ".join("{%s}" % ",".join(m) for m in meas)))
+    out.append("static const %s %s[K_NCLASS][C09_NSIG]={%s};" % (ctype, name, ",".join("{%s}" % ",".join((fmt % v) if ctype == "double" else str(v) for v in r) for r in ent)))
 
 def table3(name, keys, fn, relax, vac, cmt):
     ent = []; meas = []
     for k in range(NCLASS):
         row = []; mrow = []
-        for s in range(2):
+        for s in range(NSIG):
             pair = []; mp = []
             for key in keys:     # order: [vad=0, vad=1]
                 m = ext(k, s, key, fn); mp.append("n/a" if m is None else "%.2f" % m)
                 pair.append(vac if m is None else relax(m))
             row.append(pair); mrow.append(mp)
         ent.append(row); meas.append(mrow)
-    out.append("/* %s\n   measured [class][speech,tone][novad,vad]: %s */" % (cmt, " ".join("{%s}" % ",".join("{%s}" % ",".join(p) for p in r) for r in meas)))
-    out.append("static const double %s[K_NCLASS][2][2]={%s};" % (name, ",".join("{%s}" % ",".join("{%s}" % ",".join("%.2f" % v for v in p) for p in r) for r in ent)))
+    out.append("/* %s\n   measured [class][speech,tone,steps47,steps13][novad,vad]: %s */" % (cmt, " ".join("{%s}" % ",".join("{%s}" % ",".join(p) for p in r) for r in meas)))
+    out.append("static const double %s[K_NCLASS][C09_NSIG][2]={%s};" % (name, ",".join("{%s}" % ",".join("{%s}" % ",".join("%.2f" % v for v in p) for p in r) for r in ent)))
 
 up2 = lambda m: math.ceil(max(2.0 * m, 2.0) * 100) / 100.0          # ratios: >= 2x the measured maximum
 dn3 = lambda m: math.floor((m - 3.0) * 10) / 10.0                  # dB minima: >= 3 dB below the measured minimum
@@ -81,19 +82,19 @@ table2("T_STAY", "stay_min", min, lambda m: min(dn3(m), 27.0), -99.0,
 ent = []; meas = []
 for k in range(NCLASS):
     row = []; mrow = []
-    for s in range(2):
+    for s in range(NSIG):
         a = ext(k, s, "tconv_tree_max", max); b = ext(k, s, "tconv_burst_max", max)
         m = max([v for v in (a, b) if v is not None], default=None)
         mrow.append("n/a" if m is None else "%d" % m)
-        if m is None: row.append(0)
+        if m is None: row.append(-1)      # never measured: no deadline, tails not cut
         else:
             d = int(2 * m + 1)
             row.append(d if d + NSTAY_TAIL + 2 <= tailroom(k) else 0)
     ent.append(row); meas.append(mrow)
 out.append("/* O7a: within T_NCONV audible packets after reception resumes two consecutive packets are >= 27 dB SNR from the twin\n"
-           "   (2 x measured maximum + 1; 0 = no deadline: the measured time, or its lower bound where the tail room ended first, does not fit twice into the tail room)\n"
-           "   measured [class][speech,tone]: %s */" % " ".join("{%s}" % ",".join(m) for m in meas))
-out.append("static const int T_NCONV[K_NCLASS][2]={%s};" % ",".join("{%s}" % ",".join(str(v) for v in r) for r in ent))
+           "   (2 x measured maximum + 1; 0 = no deadline, -1 = key never measured: the measured time, or its lower bound where the tail room ended first, does not fit twice into the tail room)\n"
+           "   measured [class][speech,tone,steps47,steps13]: %s */" % " ".join("{%s}" % ",".join(m) for m in meas))
+out.append("static const int T_NCONV[K_NCLASS][C09_NSIG]={%s};" % ",".join("{%s}" % ",".join(str(v) for v in r) for r in ent))
 
 print("/* c09_thresholds.h - GENERATED by gen_thresholds.py from %s (%d configurations); do not edit by hand.\n"
       "   class order: %s */" % (sys.argv[1].split("/")[-1], len(rows), ", ".join(TAGS)))
